@@ -19,7 +19,8 @@ RULE = ("a case is (scheme, configuration, key, valid database, search history o
         "the scheme module's DEFAULT_CONFIG, K.serialize() and the key order of DB taken before SSEScheme/KeyGen/EDBSetup equal "
         "the originals afterwards; EDB.serialize() is byte-identical to the post-setup snapshot after every step; every token "
         "serializes identically before and after each use; every answer equals DB.get(w, empty) and the first answer given for "
-        "that keyword. Non-trivial = history has >= 3 searches incl. a repeat and an absent keyword, or the scheme pads the "
+        "that keyword - also when the caller modifies the result lists it was given (half of the cases) and, for small databases, across up "
+        "to 32 index generations built by the same scheme object and key with the posting lists rotated among the keywords. Non-trivial = history has >= 3 searches incl. a repeat and an absent keyword, or the scheme pads the "
         "database (CT14/ANSS16 with N not a power of two); distinct = distinct (scheme, config, profile, history).")
 ASSUMPTIONS = ["scan_database_and_update_config_dict (an explicit mutator) and the client's salt insertion are outside this property"]
 
@@ -94,6 +95,17 @@ def run_case(case):
             if w in first_answer and first_answer[w] != got:
                 raise Violation("%s: step %d: answer for %r differs from its first answer" % (scheme, step, w), "%s:answer_changed" % scheme)
             first_answer.setdefault(w, copy.deepcopy(got))
+            # the answer belongs to the caller, who may do with it what it likes (merge other results into it, empty it): later
+            # answers must not be affected
+            if case.get("mutate_results"):
+                if isinstance(got, list):
+                    got.extend([b"\xee" * desc.id_size(cfg), b"\xdd" * desc.id_size(cfg)])
+                    if step % 2:
+                        del got[:]
+                elif isinstance(got, set):
+                    got.add(b"\xee" * desc.id_size(cfg))
+                    if step % 2:
+                        got.clear()
             now = edb.serialize()
             if now != snap:
                 raise Violation("%s: step %d %r: the encrypted database changed during Search" % (scheme, step, op), "%s:edb_mutated" % scheme)
@@ -101,6 +113,27 @@ def run_case(case):
                 raise Violation("%s: step %d: the key changed" % (scheme, step), "%s:key_mutated" % scheme)
         if db != db_copy or cfg != cfg_copy or mod_cfg.DEFAULT_CONFIG != default_copy:
             raise Violation("%s: database / config changed during the search history" % scheme, "%s:inputs_mutated_by_search" % scheme)
+        # index generations: the same scheme object and key encrypt the database again and again with the posting lists rotated
+        # among the keywords (every earlier index is dropped first); each generation answers from ITS database
+        gens = case.get("generations", 0)
+        if gens and len(kws) >= 2 and len({tuple(v) for v in db.values()}) >= 2:
+            import gc
+            lists = [list(v) for v in db.values()]
+            for g in range(1, gens + 1):
+                edb = None
+                gc.collect()
+                dbg = {w: list(lists[(i + g) % len(lists)]) for i, w in enumerate(kws)}
+                try:
+                    edb = sch.EDBSetup(key, dbg)
+                    for w in kws[:4] + absent[:1]:
+                        got = sch.Search(edb, sch.TokenGen(key, w)).get_result_list()
+                        if not S.result_matches(desc, got, dbg, w):
+                            raise Violation("%s: generation %d of the index (same scheme object and key, posting lists rotated) answers %r with %d "
+                                            "ids, expected %d" % (scheme, g, w, len(got), len(dbg.get(w, []))), "%s:stale_answer_across_generations" % scheme)
+                except Violation:
+                    raise
+                except Exception as e:
+                    raise stage_violation(scheme, "index generation %d" % g, e)
 
 
 @st.composite
@@ -115,6 +148,11 @@ def st_ops(draw, max_ops):
 def st_case(draw, scheme, max_ops):
     c = draw(S.st_scheme_case(scheme, max_total=120))
     c["ops"] = draw(st_ops(max_ops))
+    c["mutate_results"] = draw(st.booleans())
+    if sum(c["db"]["lens"]) <= 60 and scheme not in ("CGKO06.SSE1", "CGKO06.SSE2"):
+        c["generations"] = draw(st.sampled_from([0, 0, 4, 16, 32]))
+    elif sum(c["db"]["lens"]) <= 30:
+        c["generations"] = draw(st.sampled_from([0, 0, 3]))
     return c
 
 
@@ -139,7 +177,11 @@ def body(case, res):
     cl = ["scheme:" + case["scheme"], "history:" + ("rich" if hist else "simple")]
     if pads:
         cl.append("scheme_pads_db")
-    res.count(SP.fp_of(case) + [case["ops"]], hist or pads, cl,
+    if case.get("mutate_results"):
+        cl.append("caller_modifies_returned_results")
+    if case.get("generations"):
+        cl.append("index_generations:%d" % case["generations"])
+    res.count(SP.fp_of(case) + [case["ops"], bool(case.get("mutate_results")), case.get("generations", 0)], hist or pads, cl,
               sample=dict(SP.sample_of(case), ops=case["ops"]))
     run_case(case)
 
